@@ -23,6 +23,8 @@ func (m *Machine) load(p value) value {
 		return copyVal(*p)
 	case *viewPtr:
 		return m.viewLoad(p)
+	case *symElem:
+		return m.symLoad(p)
 	case uptr:
 		if p.p == nil {
 			m.rtPanic("invalid memory address or nil pointer dereference")
@@ -41,6 +43,9 @@ func (m *Machine) store(p value, v value, t types.Type) {
 		storeInto(p, v)
 	case *viewPtr:
 		m.viewStore(p, v)
+	case *symElem:
+		i := m.concretize(p.idx, "store index")
+		storeInto(&p.cells[i], v)
 	case uptr:
 		if p.p == nil {
 			m.rtPanic("invalid memory address or nil pointer dereference")
@@ -719,7 +724,10 @@ func (m *Machine) slice(instr *ssa.Slice, x, lo, hi, max value) value {
 	bound := func(v value, t types.Type, what string) int {
 		// symbolic bound: first decide whether it can be out of [0,capacity]
 		if tv, ok := v.(*term.Term); ok {
-			in := m.F.Cmp(term.OpUle, tv, m.F.Const(tv.W, uint64(capacity)))
+			in := m.F.True()
+			if tv.W >= 64 || uint64(capacity) <= mask(tv.W) {
+				in = m.F.Cmp(term.OpUle, tv, m.F.Const(tv.W, uint64(capacity)))
+			}
 			if !m.branch(boolVal(in)) {
 				m.rtPanic("slice bounds out of range [symbolic " + what + "]")
 			}
